@@ -114,6 +114,7 @@ func runStoreCase(c *xs.Ctx, r *xs.Result, sc storeCase) {
 		mgr.Stop()
 		os.RemoveAll(dir)
 	}()
+	refused := false
 	add := func(salt byte, fill func(p db.Patch)) types.HashHeight {
 		prev := db.GetFrontierIdentifier(mgr.Frontier())
 		cm := &storeCommit{prev: prev.Hash, height: prev.Height + 1}
@@ -121,7 +122,7 @@ func runStoreCase(c *xs.Ctx, r *xs.Result, sc storeCase) {
 		p := db.NewPatch()
 		fill(p)
 		if err := mgr.Add(&storeTx{patch: p, commit: cm}); err != nil {
-			panic(fmt.Sprintf("harness: commit refused: %v", err))
+			refused = true // a refused commit on the frontier is C07's to judge; this case says nothing about rollbacks
 		}
 		return cm.Identifier()
 	}
@@ -137,6 +138,10 @@ func runStoreCase(c *xs.Ctx, r *xs.Result, sc storeCase) {
 		}
 		p.Put([]byte{0x41, 0x7f}, []byte{1}) // an unrelated key so that no commit is empty
 	})
+	if refused {
+		r.Count("store_cases_commit_refused", 1)
+		return
+	}
 	rawBefore := rawDigest(mgr)
 	frontBefore := viewDump(mgr.Frontier())
 	// commit 2: the writes
@@ -153,6 +158,10 @@ func runStoreCase(c *xs.Ctx, r *xs.Result, sc storeCase) {
 		}
 		p.Put([]byte{0x41, 0x7e}, []byte{2})
 	})
+	if refused {
+		r.Count("store_cases_commit_refused", 1)
+		return
+	}
 	// the view of the parent, served while the commit is above it, reads the same undo record
 	if got := viewDump(mgr.Get(c1)); got != frontBefore {
 		r.Violate("C06:store:historical-view-below-a-commit-differs-from-the-state-before-it", fmt.Sprintf("%v: view of the parent %s, state before the commit %s", sc, got, frontBefore), sc)
